@@ -77,6 +77,12 @@ PROGRAMS = [
      '<xsl:for-each select="//*"><n><xsl:attribute name="a">x<xsl:if test="position() = 2">{FAIL}</xsl:if></xsl:attribute>'
      '<xsl:comment>c<xsl:if test="position() = 3">{FAIL}</xsl:if></xsl:comment><xsl:processing-instruction name="t">d<xsl:if test="position() = 4">{FAIL}</xsl:if></xsl:processing-instruction>'
      '<xsl:copy-of select="$r"/></n></xsl:for-each><xsl:value-of select="$p"/></out></xsl:template>'),
+    # 8: failure while a SORT KEY is being evaluated (the second key calls the extension function, which fails while it is not
+    #    installed; the first key ties often, so that some first-key values have been computed by then); numeric sorts follow
+    ('<xsl:param name="p" select="1"/><xsl:output method="text"/>'
+     '<xsl:template match="/"><xsl:for-each select="//*"><xsl:sort select="string-length(name()) mod 2 + count(*)" data-type="number"/>'
+     '<xsl:sort select="e:twice(count(@*)) + string-length(name())" data-type="number" order="descending"/><xsl:value-of select="name()"/>,</xsl:for-each>{FAIL}|'
+     '<xsl:for-each select="//*"><xsl:sort select="count(ancestor::*)" data-type="number" order="descending"/><xsl:value-of select="count(ancestor::*)"/></xsl:for-each></xsl:template>'),
 ]
 OUTPUT_FAIL = {'badenc': '<xsl:output encoding="no-such-encoding-x"/>', 'compile': '<xsl:template match="/"><xsl:value-of select="$undeclared"/></xsl:template>'}
 
@@ -123,12 +129,23 @@ def histories(draw):
             else:
                 t['xml'] = 0
             return t
-        ops.append(run())
-        ops.append({'op': 'param', 'name': 'p', 'kind': draw(st.sampled_from(['expr', 'cexpr'])), 'value': "'s'"})
-        ops.append(run())
-        ops.append(draw(st.sampled_from([{'op': 'clearparams'}, {'op': 'param', 'name': 'p', 'kind': 'expr', 'value': '7'}])))
-        ops.append(run())
-        ops.append({'op': 'transform', 'xsl': 0, 'xml': 0})
+        if draw(st.booleans()):
+            ops.append(run())
+            ops.append({'op': 'param', 'name': 'p', 'kind': draw(st.sampled_from(['expr', 'cexpr'])), 'value': "'s'"})
+            ops.append(run())
+            ops.append(draw(st.sampled_from([{'op': 'clearparams'}, {'op': 'param', 'name': 'p', 'kind': 'expr', 'value': '7'}])))
+            ops.append(run())
+            ops.append({'op': 'transform', 'xsl': 0, 'xml': 0})
+        else:
+            # the extension function is there, gone (program 8 then fails inside a sort key, 'ext' failures anywhere), there again;
+            # the runs after the failure use another document where there is one
+            ops.append({'op': 'install'})
+            ops.append(run())
+            ops.append({'op': 'uninstall'})
+            ops.append(run())
+            ops.append({'op': 'install'})
+            ops.append({'op': 'transform', 'compiled': 'S0', 'xml': len(docs) - 1})
+            ops.append({'op': 'transform', 'xsl': draw(st.integers(0, nsheets - 1)), 'xml': len(docs) - 1})
     for _ in range(draw(st.integers(3, 12))):
         k = draw(st.integers(0, 19))
         if k <= 7:
